@@ -43,7 +43,8 @@ type HEVCFrameFieldInfo struct {
 
 func DecodePicTimingHevcSEI(sd *SEIData, exPar HEVCPicTimingParams) (SEIMessage, error) {
 	buf := bytes.NewBuffer(sd.Payload())
-	br := bits.NewEBSPReader(buf)
+	// The payload is RBSP (emulation prevention bytes are already removed).
+	br := bits.NewReader(buf)
 	pt := PicTimingHevcSEI{
 		payload: sd.Payload(),
 	}
